@@ -449,6 +449,10 @@ ListAlphabet ==        \* C19: ordinary symbols of any value (negative, > 16 bit
 ListIncFiles == << [name |-> "i1", body |-> << Lab("x"), I0("nop"), Lab("a"), Const("n", Num(9)) >>],
                    [name |-> "i2", body |-> << Const("q", Num(-70000)), LabX("y"), By(<<Num(2)>>) >>] >>
 
+LayoutCoreAlphabet ==  \* C02: the core of LayoutAlphabet, small enough for all programs of 4 statements
+  { I0("nop"), I1("movi", A), I1("movr", A), W(<<A, Dot>>), W(<<>>), By(<< Num(1) >>), Blkb(Sym("n")), [k |-> "even"], [k |-> "align", e |-> Num(4)],
+    [k |-> "ascii", bs |-> <<65, 66, 67>>], Lab("a"), Const("n", Num(3)), DotSet(Bin("+", Dot, Num(5))), Rep(2, << W(<< B >>), [k |-> "ascii", bs |-> <<72, 105>>] >>),
+    Inc(2), Lab("b") }
 LayoutIncFiles == << [name |-> "i1", body |-> << Lab("x"), W(<< Sym("x"), Dot >>), By(<< Num(7) >>) >>],
                      [name |-> "i2", body |-> << W(<< Sym("y") >>), [k |-> "ascii", bs |-> <<79, 75, 33>>], Lab("y"), By(<< Bin("-", Dot, Sym("y")) >>) >>] >>
 
